@@ -165,12 +165,33 @@ class Context:
         # eval function
         self._globals["eval"] = self._create_eval_function()
 
+    def _js_to_string(self, value: JSValue) -> str:
+        """ToString as scripts see it: an object is converted through its
+        toString/valueOf by the interpreter that is running (plain conversion
+        when no script is running)."""
+        vm = self._current_vm
+        if vm is not None and isinstance(value, JSObject):
+            return vm._to_string(value)
+        return to_string(value)
+
+    def _js_to_number(self, value: JSValue):
+        """ToNumber as scripts see it (see _js_to_string)."""
+        vm = self._current_vm
+        if vm is not None and isinstance(value, JSObject):
+            return vm._to_number(value)
+        return to_number(value)
+
     def _console_log(self, *args: JSValue) -> None:
         """Console.log implementation."""
         print(" ".join(to_string(arg) for arg in args))
 
     def _create_object_constructor(self) -> JSCallableObject:
         """Create the Object constructor with static methods."""
+        # Arguments of these built-ins are converted the way scripts see it
+        # (objects go through their valueOf / toString)
+        to_string = self._js_to_string  # noqa: F841
+        to_number = self._js_to_number  # noqa: F841
+
         # Create Object.prototype first
         object_prototype = JSObject()
 
@@ -440,6 +461,11 @@ class Context:
 
     def _create_array_constructor(self) -> JSCallableObject:
         """Create the Array constructor with static methods."""
+        # Arguments of these built-ins are converted the way scripts see it
+        # (objects go through their valueOf / toString)
+        to_string = self._js_to_string  # noqa: F841
+        to_number = self._js_to_number  # noqa: F841
+
         # Create Array.prototype (inherits from Object.prototype)
         array_prototype = JSArray()
         array_prototype._prototype = self._object_prototype
@@ -526,6 +552,11 @@ class Context:
 
     def _create_error_constructor(self, error_name: str) -> JSCallableObject:
         """Create an Error constructor (Error, TypeError, SyntaxError, etc.)."""
+        # Arguments of these built-ins are converted the way scripts see it
+        # (objects go through their valueOf / toString)
+        to_string = self._js_to_string  # noqa: F841
+        to_number = self._js_to_number  # noqa: F841
+
         # Add prototype first so it can be captured in closure
         # TypeError.prototype etc. inherit from Error.prototype, so every error
         # object is an `instanceof Error`
@@ -556,6 +587,11 @@ class Context:
 
     def _create_math_object(self) -> JSObject:
         """Create the Math global object."""
+        # Arguments of these built-ins are converted the way scripts see it
+        # (objects go through their valueOf / toString)
+        to_string = self._js_to_string  # noqa: F841
+        to_number = self._js_to_number  # noqa: F841
+
         math_obj = JSObject()
 
         # Constants
@@ -821,6 +857,11 @@ class Context:
 
     def _create_json_object(self) -> JSObject:
         """Create the JSON global object."""
+        # Arguments of these built-ins are converted the way scripts see it
+        # (objects go through their valueOf / toString)
+        to_string = self._js_to_string  # noqa: F841
+        to_number = self._js_to_number  # noqa: F841
+
         json_obj = JSObject()
         ctx = self  # Reference for closures
 
@@ -933,6 +974,11 @@ class Context:
 
     def _create_number_constructor(self) -> JSCallableObject:
         """Create the Number constructor with static methods."""
+        # Arguments of these built-ins are converted the way scripts see it
+        # (objects go through their valueOf / toString)
+        to_string = self._js_to_string  # noqa: F841
+        to_number = self._js_to_number  # noqa: F841
+
 
         def number_call(*args):
             """Convert argument to a number."""
@@ -989,6 +1035,11 @@ class Context:
 
     def _create_string_constructor(self) -> JSCallableObject:
         """Create the String constructor with static methods."""
+        # Arguments of these built-ins are converted the way scripts see it
+        # (objects go through their valueOf / toString)
+        to_string = self._js_to_string  # noqa: F841
+        to_number = self._js_to_number  # noqa: F841
+
 
         def string_call(*args):
             """Convert argument to a string."""
@@ -1048,6 +1099,11 @@ class Context:
 
     def _create_regexp_constructor(self) -> JSCallableObject:
         """Create the RegExp constructor."""
+        # Arguments of these built-ins are converted the way scripts see it
+        # (objects go through their valueOf / toString)
+        to_string = self._js_to_string  # noqa: F841
+        to_number = self._js_to_number  # noqa: F841
+
         ctx = self  # Capture self for closure
 
         def regexp_constructor_fn(*args):
@@ -1069,6 +1125,11 @@ class Context:
 
     def _create_function_constructor(self) -> JSCallableObject:
         """Create the Function constructor for dynamic function creation."""
+        # Arguments of these built-ins are converted the way scripts see it
+        # (objects go through their valueOf / toString)
+        to_string = self._js_to_string  # noqa: F841
+        to_number = self._js_to_number  # noqa: F841
+
         from .values import JSFunction
 
         def function_constructor_fn(*args):
@@ -1250,12 +1311,14 @@ class Context:
                     # One evaluation, one budget of host recursion
                     vm.native_depth = outer.native_depth
                 vm.enter_native(2)
+                ctx._current_vm = vm  # natives called by the eval'd code use it
                 try:
                     return vm.run(
                         bytecode_module,
                         start_time=outer.start_time if outer is not None else None,
                     )
                 finally:
+                    ctx._current_vm = outer
                     vm.native_depth[0] -= 2
             except (JSError, _ScriptThrow):
                 # Syntax errors, script exceptions and limit errors keep their
@@ -1268,16 +1331,31 @@ class Context:
 
     def _global_isnan(self, *args) -> bool:
         """Global isNaN - converts argument to number first."""
+        # Arguments of these built-ins are converted the way scripts see it
+        # (objects go through their valueOf / toString)
+        to_string = self._js_to_string  # noqa: F841
+        to_number = self._js_to_number  # noqa: F841
+
         x = to_number(args[0]) if args else float("nan")
         return math.isnan(x)
 
     def _global_isfinite(self, *args) -> bool:
         """Global isFinite - converts argument to number first."""
+        # Arguments of these built-ins are converted the way scripts see it
+        # (objects go through their valueOf / toString)
+        to_string = self._js_to_string  # noqa: F841
+        to_number = self._js_to_number  # noqa: F841
+
         x = to_number(args[0]) if args else float("nan")
         return not (math.isnan(x) or math.isinf(x))
 
     def _global_parseint(self, *args):
         """Global parseInt."""
+        # Arguments of these built-ins are converted the way scripts see it
+        # (objects go through their valueOf / toString)
+        to_string = self._js_to_string  # noqa: F841
+        to_number = self._js_to_number  # noqa: F841
+
         s = to_string(args[0]) if args else "undefined"
         s = s.lstrip(JS_WHITESPACE)
         negative = s.startswith("-")
@@ -1330,6 +1408,11 @@ class Context:
 
     def _global_parsefloat(self, *args):
         """Global parseFloat."""
+        # Arguments of these built-ins are converted the way scripts see it
+        # (objects go through their valueOf / toString)
+        to_string = self._js_to_string  # noqa: F841
+        to_number = self._js_to_number  # noqa: F841
+
         s = to_string(args[0]) if args else "undefined"
         match = self._STR_DECIMAL_PREFIX.match(s.lstrip(JS_WHITESPACE))
         if match is None:
